@@ -125,6 +125,14 @@ def check_project(inp, out, stats):
     sp0 = z3.BitVec("r0_RSP_8", 64)
     solver.add(z3.Or(sp0 > z3.BitVecVal(1 << 16, 64), sp0 < z3.BitVecVal(-(1 << 16), 64)))
     entry = lambda name, size: z3.BitVec("r0_%s_%d" % (name, size), size * 8)  # noqa: E731
+    # pointer parameters (dereferenced at small constant offsets): the objects they point to are far away from address 0,
+    # from the stack frame and from each other -- the aliasing assumption the analysis makes for parameter objects
+    far = z3.BitVecVal(1 << 16, 64)
+    bases = [sp0] + [entry(r, 8) for r in inp.get("ptr_regs", [])]
+    for i, b in enumerate(bases[1:], 1):
+        solver.add(z3.Or(b > far, b < -far))
+        for o in bases[:i]:
+            solver.add(z3.UGE(b - o, far), z3.UGE(o - b, far))
 
     def q(*cs):
         t0 = time.time()
@@ -249,14 +257,15 @@ def run(prop, tier):
         "models_not_confirmed_concretely": stats.get("unconfirmed_models", 0),
         "functions_encoded": ["function_signature::compute_function_signatures + pointer_inference::run (real code, run natively) on the basic-normalized project",
                               "State::get_register at every BlkStart node (values compared with all concrete executions)"],
-        "bounds": "single functions of 2..6 blocks, <= 6 instructions per block, loops unrolled to %d block visits; registers and stack memory at constant offsets; no calls; ALL initial register/memory states symbolic" % MAX_VISITS,
+        "bounds": "single functions of 2..6 blocks, <= 6 instructions per block, loops unrolled to %d block visits; registers, stack memory at constant offsets, parameter-object memory at constant offsets; no calls; ALL initial register/memory states symbolic" % MAX_VISITS,
         "inconclusive": inconclusive[:10],
     }
     assumptions = [
         "gamma(value) = top flag, or absolute strided interval, or entry value of the identifier + offset interval; parameter identifiers = register values at function entry, stack identifier = stack pointer at entry; "
         "a value mentioning any other identifier (heap, nested, global) is treated as unconstrained (makes the check weaker, never alarming)",
         "accesses to addresses in (-1024, 1024) abort the run; the stack pointer is 16-byte aligned at entry and at least 2^16 away from address 0 (stack slots do not alias the absolute addresses used); 1-byte registers hold 0/1",
-        "memory is only accessed through the stack/frame pointer at constant offsets or at constant absolute addresses (no accesses through parameter pointers, which could alias the frame)",
+        "memory is only accessed through the stack/frame pointer at constant offsets, at constant absolute addresses, or through pointer parameters (registers the function never overwrites) at small constant offsets; "
+        "the objects pointer parameters point to are at least 2^16 bytes away from address 0, from the entry stack pointer and from each other (the analysis' no-aliasing assumption for parameter objects)",
         "only analysis runs that reach their fixpoint are judged; every solver model is replayed by the concrete interpreter before it is reported",
     ]
     known_keys = {f["key"] for f in __import__("common").load_known(prop)}
